@@ -6,7 +6,7 @@ fields("xandikos.webdav.WebDAVApp", {
     "properties": "opaque:Registry", "reporters": "opaque:Registry", "methods": "opaque:Registry",
 })
 opaque("Registry")
-fields("xandikos.webdav.Response", {"status": "int", "reason": "str", "ghost_inner": "opt[str]"})
+fields("xandikos.webdav.Response", {"status": "int", "reason": "str", "ghost_inner": "opt[str]", "headers": "list[tuple[str,str]]", "body": "opaque:Chunks"})
 
 
 @contract("xandikos.webdav.WebDAVApp._get_allowed_methods",
@@ -220,3 +220,56 @@ class Post_handle:
         coll = request.path if request.path.endswith("/") else request.path + "/"
         return implies(ok, result.status == 200 and result.headers[0][0] == "Location"
                        and result.headers[0][1] == urllib.parse.quote(coll + cm_name(r, None, effect_arg(0, 3), effect_arg(0, 4))))
+
+
+opaque("AcceptList")
+ghost("render_body", ["opaque:Resource"], "opaque:Chunks")
+ghost("render_etag", ["opaque:Resource"], "opt[str]")
+
+
+@contract("xandikos.webdav.parse_accept_header", params={"accept": "str"}, returns="opaque:AcceptList")
+class parse_accept_header_c:
+    """Not verified here; only passed through to Resource.render."""
+
+
+@contract("iface:Resource.render",
+          params={"self": "opaque:Resource", "self_url": "str", "accepted_content_types": "opaque:AcceptList",
+                  "accepted_content_languages": "opaque:AcceptList"},
+          returns="tuple[opaque:Chunks,int,opt[str],opt[str],opt[list[str]]]", may_raise=["NotAcceptableError"],
+          assumed=True)
+class Resource_render:
+    def ensures(self, result):
+        return result[0] == render_body(self) and result[2] == render_etag(self)
+
+
+@contract("iface:Resource.get_last_modified", params={"self": "opaque:Resource"}, returns="str",
+          may_raise=["KeyError"], assumed=True)
+class Resource_get_last_modified:
+    pass
+
+
+@contract("xandikos.webdav._do_get",
+          params={"request": "opaque:Request", "environ": "dict[str,str]", "app": "obj:xandikos.webdav.WebDAVApp",
+                  "send_body": "bool"},
+          returns="obj:xandikos.webdav.Response",
+          may_raise=["ValueError", "KeyError", "AssertionError", "NotAcceptableError"])
+class do_get_c:
+    """C03: GET/HEAD with a matching If-None-Match answer 304 without a body.
+    C02: otherwise the ETag header is the resource's etag and the body is what it renders."""
+
+    def requires(app):
+        return app.backend.path != ""
+
+    def ensures(request, send_body, result):
+        r = target(request)
+        inm = header(request.headers, "If-None-Match")
+        cur = render_etag(r)
+        not_modified = inm is not None and inm != "" and cur is not None and spec_etag_matches(inm, cur)
+        return (effect_names() == []
+                and implies(r is None, result.status == 404)
+                and implies(r is not None and not_modified, result.status == 304 and result.body == [])
+                and implies(r is not None and not not_modified,
+                            result.status == 200
+                            and implies(cur is not None, ("ETag", cur) in result.headers)
+                            and implies(send_body, result.body == render_body(r))
+                            and implies(not send_body, result.body == [])))
